@@ -109,7 +109,7 @@ CLAIMED = {
          "(node, fork, chunk?, 10-hex uniquifier?, prefix, state) are symbolic; the real makeKeySafe/url.PathEscape, forkString, "
          "ForkIdString, encodeJournalName, parseRunFilename (regex run by a symbolic Pike VM over Go's own compiled program), "
          "find, getFork, Metadata.cache are executed and the solver shows the name is injective and parses back to exactly its "
-         "writer; counterexamples replay natively. Bounded. H_C11_resetJournal: the journal clean-up of a partial and of a full reset removes exactly the entries of the job / stage being reset. H_C11_forkOfNotification, H_C11_lateFork (real graphs: journal name -> parseRunFilename -> getFork, forks resolved at run time and at different times), H_C11_separatorKeys (keys containing the level separator text, 3 x 0..1 (2) symbolic bytes).",
+         "writer; counterexamples replay natively. Bounded. H_C11_resetJournal: the journal clean-up of a partial and of a full reset removes exactly the entries of the job / stage being reset. H_C11_forkOfNotification, H_C11_lateFork (real graphs: journal name -> parseRunFilename -> getFork, forks resolved at run time and at different times), H_C11_separatorKeys (keys containing the level separator text, 3 x 0..1 symbolic bytes).",
          "Trusted: go/ssa lowering, symgo, the regex VM and Replacer models (validated by native replay of witnesses), z3. "
          "Node.refreshState runs on a symbolic journal listing. Outside: indices >= 1000, nested fork ids in routing, file-name length limits.",
          "DESIGN.md §4 (C11)"),
